@@ -6,7 +6,9 @@
 // One op line = one schedule:
 //
 //	op deploy n=<size> delays=<ms,...> absent=<members|-> cancel=<members|all>@<blocks>|<members|all>@<notary|alphabet>+<k>|- rerun=<0|1>
-//	op boot   n=<size> live=<members>            (Notary bootstrap only, also for live sets that must stall)
+//	op boot   n=<size> live=<members> [leaderdown=<off>]   (Notary bootstrap only, also for live sets that must stall; leaderdown:
+//	                                             the leader is down from the moment the shared data shows on the chain until
+//	                                             height ValidUntilBlock+off of that data, the blocks in between are produced fast)
 //	op upgrade n=<size> delays=<ms,...> before=<blocks>   (previous-version executables on chain, then the procedure with the
 //	                                             supplied ones, entered <blocks> ahead of a multiple of 100: every contract is
 //	                                             updated exactly once, the next run is inert)
@@ -106,6 +108,7 @@ type node struct {
 	loseFirstDesignation bool
 	lost                 util.Uint256
 	lostSeen             atomic.Int32
+	fastUntil            atomic.Uint32 // the producer does not wait between blocks below this height
 }
 
 func freePort(t testing.TB) string {
@@ -251,10 +254,19 @@ func (nd *node) produce() {
 	tk := time.NewTicker(blockEvery)
 	defer tk.Stop()
 	for {
-		select {
-		case <-nd.stop:
-			return
-		case <-tk.C:
+		if nd.bc.BlockHeight() < nd.fastUntil.Load() {
+			// fast-forward (a member is down across a validity window): blocks are produced back to back
+			select {
+			case <-nd.stop:
+				return
+			default:
+			}
+		} else {
+			select {
+			case <-nd.stop:
+				return
+			case <-tk.C:
+			}
 		}
 		txs := nd.bc.GetMemPool().GetVerifiedTransactions()
 		if nd.loseFirstDesignation {
@@ -749,6 +761,72 @@ func (w *world) opBoot(line string, n int, kv map[string]string) string {
 	start := nd.height()
 	deadline := time.Now().Add(90 * time.Second)
 	designated := false
+	// leaderdown=<off>: the leader is interrupted as soon as the shared transaction data shows on the chain, the other live
+	// members publish their signatures of it, the chain runs (fast) to height ValidUntilBlock+off of that data (read from the
+	// record itself), then the leader is restarted with an empty process state: around the expiry the data is regenerated
+	// and every member has to REPLACE its published signature
+	if ld, ok := kv["leaderdown"]; ok && has(live, 0) && n > 1 {
+		off, err := strconv.Atoi(ld)
+		if err != nil {
+			w.t.Fatalf("bad leaderdown in %q", line)
+		}
+		stalled := func(what string) string {
+			for _, m := range ms {
+				m.cancel()
+			}
+			w.viol("deploy.enableNotary", "bootstrap-stalled", fmt.Sprintf("n=%d live=%v: %s after %d blocks", n, live, what, nd.height()-start), line)
+			w.run.Count("out.boot.stalled")
+			return "HALT ret=stalled"
+		}
+		rec := func(name string) string {
+			h, err := nd.bc.GetContractScriptHash(1)
+			if err != nil {
+				return ""
+			}
+			rs, err := nd.resolve(h, name)
+			if err != nil || len(rs) == 0 {
+				return ""
+			}
+			return rs[0]
+		}
+		var vub uint32
+		for {
+			if r := rec(deploy.VerifDomains()["notaryTx"]); r != "" {
+				d, err := deploy.VerifDecodeSharedTxData(r)
+				if err != nil {
+					w.t.Fatalf("shared transaction data on chain does not decode: %v", err)
+				}
+				vub = d.ValidUntilBlock
+				break
+			}
+			if nd.height() > start+uint32(budget) || time.Now().After(deadline) {
+				return stalled("the leader has not published the shared transaction data")
+			}
+			time.Sleep(2 * time.Millisecond)
+		}
+		ms[0].cancel() // live is sorted: ms[0] is the leader
+		<-ms[0].res
+		for _, j := range live[1:] {
+			for rec(deploy.VerifDesignateNotarySignatureDomainForMember(j)) == "" {
+				if nd.height() > start+uint32(budget) || time.Now().After(deadline) {
+					return stalled(fmt.Sprintf("member %d has not published its signature", j))
+				}
+				time.Sleep(5 * time.Millisecond)
+			}
+		}
+		if nd.roleIs(noderoles.P2PNotary) {
+			w.t.Fatalf("harness: the role was designated before the leader could be interrupted (%q)", line)
+		}
+		target := uint32(int64(vub) + int64(off))
+		nd.fastUntil.Store(target)
+		if !nd.waitHeight(target, deadline) {
+			return stalled("the chain did not reach the expiry of the shared data")
+		}
+		w.run.Count(fmt.Sprintf("out.boot.leaderdown.restart-at-vub%+d", off))
+		ms[0] = nd.start(0, 0)
+		start = nd.height()
+		budget = 200 // restart (NNS lookup, pre-checks), possibly one more wait for the expiry, re-signing, collection
+	}
 	for nd.height() < start+uint32(budget) && time.Now().Before(deadline) {
 		if nd.roleIs(noderoles.P2PNotary) {
 			designated = true
@@ -1458,8 +1536,18 @@ func schedules(run *hx.Run) []sched {
 			out = append(out, sched{"wf", fmt.Sprintf("op deploy n=1 delays=0 absent=- cancel=0@notary+%d rerun=1", k)})
 		}
 		out = append(out, sched{"wf", "op deploy n=1 delays=0 absent=- cancel=0@alphabet+0 rerun=1"})
+		// the leader down across the validity window of the shared data while the member whose signature is required has
+		// already signed: the data is regenerated and the member has to REPLACE its signature record
+		out = append(out, sched{"wf", "op boot n=2 live=0,1 leaderdown=+1"})
 		return out
 	}
+	for _, off := range []string{"-1", "0", "+1", "+30"} {
+		out = append(out, sched{"wf", "op boot n=2 live=0,1 leaderdown=" + off})
+		out = append(out, sched{"wf", "op boot n=3 live=0,1 leaderdown=" + off}) // third member absent: member 1 is required
+	}
+	out = append(out, sched{"wf", "op boot n=3 live=0,2 leaderdown=+1"})
+	out = append(out, sched{"wf", "op boot n=3 live=0,1,2 leaderdown=+1"})
+	out = append(out, sched{"wf", "op boot n=5 live=0,1,4 leaderdown=0"})
 	// the single member restarted at EVERY block of its run (an uninterrupted run takes about 70 blocks), and at every
 	// block of the role windows observed on the chain
 	for k := 1; k <= 75; k++ {
